@@ -692,6 +692,20 @@ def scenario(name, rng):
             return n
         m.PBM[0].LoadDistributionFunction(top)
         return m, 3600 * 5
+    if name == 'alzr-minradius':
+        # minimum radius of the constraints above the precipitate's Rmin: whole classes between the two thresholds, nuclei pass through
+        # (the nuclei themselves enter above both thresholds; it is DISSOLVING particles that pass through the band: a population just
+        # above the minimum radius in a matrix whose critical radius lies above it)
+        m = kwnruns.build_binary(x0=rng.uniform(0.9e-3, 1.2e-3), bins=150, minBins=100, maxBins=200)
+        m.setConstraints(minRadius=rng.uniform(4.0e-10, 4.4e-10))
+        m.setup()
+        r1 = rng.uniform(5.0e-10, 5.4e-10); amp = 10 ** rng.uniform(18, 20)
+
+        def small(r):
+            n = amp * np.exp(-((r - r1) / 0.4e-10) ** 2); n[n < 1] = 0
+            return n
+        m.PBM[0].LoadDistributionFunction(small)
+        return m, 3600 * 5
     if name == 'alzr-loaded-dilute':
         # few, coarse particles close to the top of a small grid: the grid is extended and re-meshed while the particle volume is tiny
         m = kwnruns.build_binary(x0=rng.uniform(3e-3, 4e-3), bins=40, minBins=30, maxBins=50, cMax=4e-9)
@@ -966,6 +980,7 @@ ORACLES = {
     'volume':    'the stored distribution after the step holds the particle volume of the state the row was computed from, up to the <1/m3 truncation (C01/C02)',
     'recorded':  'the recorded size distribution of a step is the stored one (C02)',
     'nuc':       'negative driving force => no nucleation terms; non-zero critical radius >= Rmin; no nucleation radius without it (C14)',
+    'stored':    'the density a row reports is the zeroth moment of the distribution held after that step, up to the classes below one particle (C02)',
     'topflow':   'no more than one particle per m3 leaves through the largest class in a step: the number density changes only by nucleation and by dissolution through the smallest class (C02)',
     'lookup':    'binary: lookup table computed within maxTempChange of the newest recorded temperature (C13)',
 }
@@ -1118,6 +1133,22 @@ def step_oracles(res, rec, cfg, name, which):
             if not vlib.close(yp['dens'], m0 if m0 >= cfg['minDens'] else yp['dens'], 1e-9) or (m0 >= cfg['minDens'] and yp['dens'] == 0):
                 res.violate('composed:setup-row-not-moments', 'the row written by setup() reports a number density that is not the zeroth moment of the '
                             'distribution the model holds after setup()', dict(scenario=name, phase=p), yp['dens'], m0)
+    if 'stored' in which:
+        # C02: the density and fraction a row reports are the moments of the distribution the model HOLDS after that step, up to the
+        # removal of classes with less than one particle (UpdatePBMEuler); steps that re-meshed to fewer classes are skipped (the
+        # re-mesh rescales to the third moment, not to the number)
+        for i, st in enumerate(steps):
+            for p, ph in enumerate(st['post']['ph']):
+                if ph['bins'] < st['pre']['ph'][p]['bins'] or any(u is not None and u['regrow']['asked'] and False for u in st['upd']):
+                    continue
+                if ph['bins'] != st['pre']['ph'][p]['bins'] and not np.array_equal(np.asarray(ph['bounds'])[:st['pre']['ph'][p]['bins'] + 1], np.asarray(st['pre']['ph'][p]['bounds'])):
+                    continue        # re-meshed (not merely extended)
+                yp = st['post']['hist'][0]['ph'][p]
+                m0 = float(np.sum(ph['psd']))
+                if abs(yp['dens'] - m0) > ph['bins'] + 1 + 1e-9 * max(m0, yp['dens']):
+                    res.violate('composed:row-density-not-moment-of-stored-distribution', 'the number density recorded for a step differs from the zeroth moment of the distribution the model holds after that step by more than the classes below one particle',
+                                dict(scenario=name, step=i, phase=p, bins=ph['bins'], t=st['post']['hist'][0]['time']), yp['dens'], m0)
+                    break
     if 'recorded' in which:
         m = rec.m
         for p in range(rec.P):
